@@ -4,8 +4,8 @@
 (* Part P  (property level, written from the property text and the ebusd documentation of ACL files):       *)
 (*   Granted, Levels, the session monitor PUsers/POk, the sink rule SinkOk.                                 *)
 (* Part S  (code shaped model of Message::checkLevel, MessageMap::find, MainLoop::executeAuth/Read/Write/   *)
-(*   Get): SStep.  S exists in two variants, StarMode "whole" (the pinned code: '*' grants only when it is   *)
-(*   the whole list) and "token" (the repaired design).  MC_Access*.cfg explore S exhaustively against P.   *)
+(*   Get): SStep.  S exists in two variants, mode "whole" (the pinned code: '*' grants only when it is the   *)
+(*   whole list) and "token" (the repaired design).  MC_Access*.cfg explore S exhaustively against P.       *)
 (* Part D  (domain): the small worlds and sessions that are replayed on the real daemon (C16Gen emits them, *)
 (*   C16Judge judges what the real code did).                                                                *)
 (*                                                                                                          *)
